@@ -59,7 +59,7 @@ struct Comparison {
 
 fn value_is_zero(value: &ast::Expression) -> bool {
     if let ast::Expression::Number(token) = value {
-        token.token().to_string() == "0"
+        crate::ast_util::number_is_zero(&token.token().to_string())
     } else {
         false
     }
